@@ -1,0 +1,102 @@
+//go:build verif
+
+package store
+
+// Contracts for the deductive checks in /verif (read by /verif/govc; comment-only, no code).
+
+//@ import types github.com/tendermint/tendermint/types
+//@ import tmstore github.com/tendermint/tendermint/proto/tendermint/store
+//@ import tmproto github.com/tendermint/tendermint/proto/tendermint/types
+
+// Database keys are functions of height (and part index / hash): `pure`, checked syntactically.
+//@ func calcBlockMetaKey
+//@   pure
+//@ func calcBlockPartKey
+//@   pure
+//@ func calcBlockCommitKey
+//@   pure
+//@ func calcSeenCommitKey
+//@   pure
+//@ func calcBlockHashKey
+//@   pure
+
+// ASSUMED about the key formats ("H:%v", "P:%v:%v", "C:%v", "SC:%v", "BH:%x", "blockStore"): injective in the
+// height, and the families are pairwise disjoint.
+//@ axiom keys_meta_inj: forall(a, forall(b, a != b ==> calcBlockMetaKey(a) != calcBlockMetaKey(b)))
+//@ axiom keys_commit_inj: forall(a, forall(b, a != b ==> calcBlockCommitKey(a) != calcBlockCommitKey(b)))
+//@ axiom keys_seen_inj: forall(a, forall(b, a != b ==> calcSeenCommitKey(a) != calcSeenCommitKey(b)))
+//@ axiom keys_part_inj: forall(a, forall(b, forall(p, forall(q, (a != b || p != q) ==> calcBlockPartKey(a, p) != calcBlockPartKey(b, q)))))
+//@ axiom keys_disjoint1: forall(a, forall(b, calcBlockMetaKey(a) != calcBlockCommitKey(b) && calcBlockMetaKey(a) != calcSeenCommitKey(b) && calcBlockCommitKey(a) != calcSeenCommitKey(b)))
+//@ axiom keys_disjoint2: forall(a, forall(b, forall(p, calcBlockPartKey(a, p) != calcBlockMetaKey(b) && calcBlockPartKey(a, p) != calcBlockCommitKey(b) && calcBlockPartKey(a, p) != calcSeenCommitKey(b))))
+//@ axiom keys_disjoint3: forall(a, forall(x, calcBlockHashKey(x) != calcBlockMetaKey(a) && calcBlockHashKey(x) != calcBlockCommitKey(a) && calcBlockHashKey(x) != calcSeenCommitKey(a)))
+//@ axiom keys_disjoint4: forall(a, calcBlockMetaKey(a) != blockStoreKey && calcBlockCommitKey(a) != blockStoreKey && calcSeenCommitKey(a) != blockStoreKey)
+//@ axiom keys_disjoint5: forall(a, forall(p, calcBlockPartKey(a, p) != blockStoreKey)) && forall(x, calcBlockHashKey(x) != blockStoreKey) && forall(a, forall(p, forall(x, calcBlockPartKey(a, p) != calcBlockHashKey(x))))
+
+// The descriptor as it is ON DISK (ghost), written only by SaveBlockStoreState.
+//@ ghost var pBase int64
+//@ ghost var pHeight int64
+
+// contigDisk: what a reader of the database may rely on after a crash at this very moment: for every height between
+// the persisted base and height the block meta is stored, together with the commit for the previous height (above
+// the base) and, for the tip, the locally seen commit.
+//@ spec func contigDisk(bs *BlockStore) bool = forall(h, (pHeight > 0 && pBase <= h && h <= pHeight) ==>
+//@   | (dbhas(bs.db, calcBlockMetaKey(h)) && (h > pBase ==> dbhas(bs.db, calcBlockCommitKey(h - 1))) && (h == pHeight ==> dbhas(bs.db, calcSeenCommitKey(h)))))
+// memDesc: the in-memory descriptor agrees with the persisted one.
+//@ spec func memDesc(bs *BlockStore) bool = bs.base == pBase && bs.height == pHeight && 0 <= pBase && pBase <= pHeight && (pHeight > 0 ==> pBase > 0)
+
+//@ func SaveBlockStoreState
+//@   assigns pBase, pHeight, dbstate
+//@   sets pBase = bsj.Base when true
+//@   sets pHeight = bsj.Height when true
+//@   ensures others: forall(k, k != blockStoreKey ==> (dbhas(db, k) <==> old(dbhas(db, k))))
+//@   ensures batches: forall(b, forall(k, dbbatchop(cast(int, b), k) == old(dbbatchop(cast(int, b), k))))
+
+//@ func BlockStore.saveState
+//@   assigns pBase, pHeight, dbstate
+//@   ensures desc: pBase == bs.base && pHeight == bs.height
+//@   ensures db: forall(k, k != blockStoreKey ==> (dbhas(bs.db, k) <==> old(dbhas(bs.db, k))))
+//@   ensures batches: forall(b, forall(k, dbbatchop(cast(int, b), k) == old(dbbatchop(cast(int, b), k))))
+
+//@ func BlockStore.LoadBlockMeta
+//@   assigns nothing
+//@   ensures stored: result != nil ==> dbhas(bs.db, calcBlockMetaKey(height))
+
+// ASSUMED: protobuf encoding helpers do not touch the store.
+//@ func mustEncode
+//@   trusted
+//@   assigns nothing
+
+//@ func BlockStore.saveBlockPart
+//@   assigns dbstate
+//@   ensures added: dbhas(bs.db, calcBlockPartKey(height, index))
+//@   ensures others: forall(k, old(dbhas(bs.db, k)) ==> dbhas(bs.db, k))
+
+// SaveBlock: parts first, then meta, hash index, commit for the previous height, seen commit, and only then the
+// descriptor. The on-disk state is consistent before every single write (crash points) and at return.
+//@ func BlockStore.SaveBlock
+//@   requires inv: contigDisk(bs) && memDesc(bs)
+//@   requires args: block != nil && blockParts != nil && seenCommit != nil && block.LastCommit != nil && block.Header.Height >= 1
+//@   ensures inv: contigDisk(bs) && memDesc(bs)
+//@   ensures tip: pHeight == block.Header.Height
+//@   atcall DB.Set crash: contigDisk(bs)
+//@   atcall BlockStore.saveState crash: contigDisk(bs)
+//@   atcall BlockStore.saveState complete: dbhas(bs.db, calcBlockMetaKey(block.Header.Height)) && dbhas(bs.db, calcSeenCommitKey(block.Header.Height)) && dbhas(bs.db, calcBlockCommitKey(block.Header.Height - 1))
+//@   loop 1 invariant parts: 0 <= i && forall(p, 0, i, dbhas(bs.db, calcBlockPartKey(block.Header.Height, p))) && contigDisk(bs) && memDesc(bs) && forall(k, old(dbhas(bs.db, k)) ==> dbhas(bs.db, k))
+
+// PruneBlocks: the persisted base is raised BEFORE a batch deleting lower heights is written, and no batch ever
+// deletes a key the (already persisted) descriptor still requires — whatever subset of the batch a crash applies.
+//@ func BlockStore.PruneBlocks
+//@   requires inv: contigDisk(bs) && memDesc(bs)
+//@   ensures inv: contigDisk(bs) && memDesc(bs)
+//@   ensures base: result1 == nil ==> pBase == height
+//@   ensures kept: forall(g, g >= height ==> ((dbhas(bs.db, calcBlockMetaKey(g)) <==> old(dbhas(bs.db, calcBlockMetaKey(g)))) && (dbhas(bs.db, calcSeenCommitKey(g)) <==> old(dbhas(bs.db, calcSeenCommitKey(g))))))
+//@   atcall Batch.WriteSync safe: forall(g, g >= pBase ==> (dbbatchop(recv, calcBlockMetaKey(g)) != 2 && dbbatchop(recv, calcSeenCommitKey(g)) != 2 && dbbatchop(recv, calcBlockCommitKey(g)) != 2))
+//@   atcall Batch.WriteSync crash: contigDisk(bs)
+//@   loop 1 invariant rng: old(bs.base) <= h && h <= height && height <= pHeight && pBase <= h
+//@   loop 1 invariant inv: contigDisk(bs) && memDesc(bs)
+//@   loop 1 invariant pending: forall(g, g >= h ==> (dbbatchop(batch, calcBlockMetaKey(g)) != 2 && dbbatchop(batch, calcSeenCommitKey(g)) != 2 && dbbatchop(batch, calcBlockCommitKey(g)) != 2))
+//@   loop 1 invariant kept: forall(g, g >= h ==> ((dbhas(bs.db, calcBlockMetaKey(g)) <==> old(dbhas(bs.db, calcBlockMetaKey(g)))) && (dbhas(bs.db, calcSeenCommitKey(g)) <==> old(dbhas(bs.db, calcSeenCommitKey(g))))))
+//@   loop 2 invariant rng: old(bs.base) <= h && h < height && height <= pHeight && pBase <= h && 0 <= p
+//@   loop 2 invariant inv: contigDisk(bs) && memDesc(bs)
+//@   loop 2 invariant pending: forall(g, g > h ==> (dbbatchop(batch, calcBlockMetaKey(g)) != 2 && dbbatchop(batch, calcSeenCommitKey(g)) != 2 && dbbatchop(batch, calcBlockCommitKey(g)) != 2))
+//@   loop 2 invariant kept: forall(g, g >= h ==> ((dbhas(bs.db, calcBlockMetaKey(g)) <==> old(dbhas(bs.db, calcBlockMetaKey(g)))) && (dbhas(bs.db, calcSeenCommitKey(g)) <==> old(dbhas(bs.db, calcSeenCommitKey(g))))))
